@@ -2,7 +2,7 @@ SPECIFICATION Spec
 CONSTANTS W = 2
           WS = 1
           Deep = {"int8", "N1"}
-          OptSet = {"default", "useall", "export", "exporttop", "tng", "tng_export", "tng_exporttop"}
+          OptSet = {"default", "useall", "export", "exporttop", "tng", "tng_export", "tng_exporttop", "throw", "custom"}
           Reps = 20
           RepW = 0
           Which = "all"
